@@ -225,9 +225,10 @@ def _slice_guard(s):
             if e[0] == "call" and any(a[0] == "closure" and a[1] == b.nname for a in e[2]):
                 site_block[par.id] = bi
     for body in bodies:
-        atoms = q.cmp_atoms(body)
-        a_len = [a for a in atoms if "CatVec::len(" in a[1] and a[1].startswith("Lt(")]
-        a_ord = [a for a in atoms if "into_u16" in a[1] and a[1].count("into_u16") >= 2]
+        is_len = lambda c: "CatVec::len(" in c and c.startswith("Lt(")
+        a_len = [a for a in q.pick_atoms(body, is_len) if is_len(a[1])]          # `end > len` or `end <= len` (negated)
+        is_ord = lambda c: "into_u16" in c and c.count("into_u16") >= 2 and c.startswith("Lt(")
+        a_ord = [a for a in q.pick_atoms(body, is_ord) if is_ord(a[1])]
         if a_len and a_ord and body.id in site_block:
             ok = True
             for bad in (a_len[0], a_ord[0]):
